@@ -2,10 +2,11 @@
 package main
 
 import (
+	"encoding/json"
 	"fmt"
-	"os"
 	"math/big"
 	"math/rand"
+	"os"
 
 	convutils "github.com/jcmoraisjr/haproxy-ingress/pkg/converters/utils"
 
@@ -116,10 +117,32 @@ func main() {
 	res := hx.NewResult("C16", "random and pooled (weight, replicas) vectors of 1..5 groups, weights 0..256, replicas 0..40, initial-weight 1..256; non-trivial = at least two groups with replicas and a non-zero weight; distinct by canonical text of the input")
 	cw := hx.NewCaseWriter(o, res, "From HI Require Import Corr.Corr_C16.", "anycase", 500)
 	var inputs []input
+	// a replay is one stored input of any of the streams, told apart by its fields
+	var replayBG *bgInput
+	var replayHist *struct {
+		First    bgInput `json:"first"`
+		Then     bgInput `json:"then"`
+		Selector bool    `json:"selector"`
+	}
 	if o.Replay != "" {
-		var in input
-		hx.ReadReplay(o.Replay, &in)
-		inputs = append(inputs, in)
+		var probe map[string]json.RawMessage
+		hx.ReadReplay(o.Replay, &probe)
+		switch {
+		case probe["first"] != nil:
+			replayHist = new(struct {
+				First    bgInput `json:"first"`
+				Then     bgInput `json:"then"`
+				Selector bool    `json:"selector"`
+			})
+			hx.ReadReplay(o.Replay, replayHist)
+		case probe["endpoints"] != nil:
+			replayBG = &bgInput{}
+			hx.ReadReplay(o.Replay, replayBG)
+		default:
+			var in input
+			hx.ReadReplay(o.Replay, &in)
+			inputs = append(inputs, in)
+		}
 	} else {
 		// corpus first: the historical float32 witness
 		inputs = append(inputs, input{IW: 1, Clusters: [][2]int{{5, 8}, {7, 11}}})
@@ -230,10 +253,45 @@ func main() {
 			}
 			in.deriveGroups()
 			selector := i%2 == 0
-			out, ok := runBGRendered(rdir, in, selector)
+			// every other case is a two-step history: the same endpoints, then ONLY
+			// weights / labels / readiness / mode change (an incremental update);
+			// the weights of the second step are judged as well
+			var next *bgInput
+			if i%4 >= 2 {
+				n := genBG(rng)
+				n.Endpoints = append([]bgEndpoint(nil), n.Endpoints...)
+				for len(n.Endpoints) < len(in.Endpoints) {
+					n.Endpoints = append(n.Endpoints, bgEndpoint{Groups: []int{0}})
+				}
+				n.Endpoints = n.Endpoints[:len(in.Endpoints)]
+				for j := range n.Endpoints {
+					n.Endpoints[j].NoPod = false
+					for k, g := range n.Endpoints[j].Groups {
+						if g >= len(n.Weights) {
+							n.Endpoints[j].Groups[k] = 0
+						}
+					}
+				}
+				n.deriveGroups()
+				next = &n
+			}
+			out, out2, ok := runBGRenderedHist(rdir, in, next, selector)
 			if !ok {
 				res.Count("bgr_skipped")
 				continue
+			}
+			if next != nil && out2 != nil {
+				res.Count("bg_rendered_second_step")
+				res.OracleChecks++
+				if k, what := oracleBG(*next, out2); k != "" {
+					res.Count("oracle_fail_rendered_step2_" + k)
+					res.Fail(hx.Failure{Key: "C16/rendered-after-update-" + k, What: "weights in the written haproxy.cfg after an incremental update that keeps the endpoint addresses: " + what,
+						Input: map[string]interface{}{"first": in, "then": *next, "selector": selector}, Observed: out2})
+				}
+				if !o.Search {
+					n2, o2 := *next, out2
+					cw.Add(func(id int) string { return coqBG(id, n2, o2) }, n2)
+				}
 			}
 			res.Seen(fmt.Sprintf("bgr:%v:%v", in, selector), len(in.Endpoints) >= 2)
 			res.Count("bg_rendered")
@@ -253,8 +311,41 @@ func main() {
 		os.RemoveAll(rdir)
 	}
 
+	if replayHist != nil {
+		rdir := o.Out + "/bgr"
+		_, out2, ok := runBGRenderedHist(rdir, replayHist.First, &replayHist.Then, replayHist.Selector)
+		res.OracleChecks++
+		if ok && out2 != nil {
+			if k, what := oracleBG(replayHist.Then, out2); k != "" {
+				res.Fail(hx.Failure{Key: "C16/rendered-after-update-" + k, What: "weights in the written haproxy.cfg after an incremental update that keeps the endpoint addresses: " + what, Input: replayHist, Observed: out2})
+			}
+		}
+		os.RemoveAll(rdir)
+	}
+	if replayBG != nil {
+		rdir := o.Out + "/bgr"
+		hasPods := true
+		for _, e := range replayBG.Endpoints {
+			hasPods = hasPods && !e.NoPod
+		}
+		if hasPods {
+			for _, selector := range []bool{false, true} {
+				if out, ok := runBGRendered(rdir, *replayBG, selector); ok {
+					res.OracleChecks++
+					if k, what := oracleBG(*replayBG, out); k != "" {
+						res.Fail(hx.Failure{Key: "C16/rendered-" + k, What: "weights in the written haproxy.cfg: " + what, Input: *replayBG, Observed: out})
+					}
+				}
+			}
+		}
+		os.RemoveAll(rdir)
+	}
+
 	// ---- blue/green through the real updater ----
 	var bgs []bgInput
+	if replayBG != nil {
+		bgs = append(bgs, *replayBG)
+	}
 	if o.Replay == "" {
 		bgs = append(bgs, bgInput{IW: 100, Weights: []int{90, 10, 0}, Endpoints: []bgEndpoint{{Groups: []int{0}}, {Groups: []int{1}}, {Groups: []int{2}}}})
 		// a group with an empty label value and a pod that lacks the key altogether
